@@ -2,7 +2,13 @@ package main
 
 import (
 	"fmt"
+	"math"
 	"math/big"
+	"strconv"
+	"strings"
+	"sync"
+	"sync/atomic"
+	"time"
 
 	"github.com/nspcc-dev/neofs-node/pkg/util/precision"
 )
@@ -11,100 +17,291 @@ func init() {
 	engines["arith"] = seqRunner{gen: arithGen, exec: arithExec}.engine()
 }
 
-func arithGen(c *runCtx, run func([]string)) {
-	var ops []string
+// arithI64 parses a signed 64-bit value of an op line (the converter's API takes int64).
+func arithI64(s string) int64 {
+	v, err := strconv.ParseInt(s, 10, 64)
+	if err != nil {
+		panic(fmt.Sprintf("bad int64 %q", s))
+	}
+	return v
+}
+
+func arithI64s(s string) []int64 {
+	if s == "" || s == "-" {
+		return nil
+	}
+	var r []int64
+	for _, p := range strings.Split(s, ",") {
+		r = append(r, arithI64(p))
+	}
+	return r
+}
+
+func arithJoin(xs []int64) string {
+	if len(xs) == 0 {
+		return "-"
+	}
+	var sb strings.Builder
+	for i, x := range xs {
+		if i > 0 {
+			sb.WriteByte(',')
+		}
+		sb.WriteString(strconv.FormatInt(x, 10))
+	}
+	return sb.String()
+}
+
+// arithAmounts: the whole int64 range the API accepts — boundary values around 0, around +-10^k (every factor the
+// converter can have and its neighbours, i.e. exact multiples and non-multiples of both signs), around +-2^53 (the
+// supported range), around +-(2^63/10^k) (where a product starts to wrap), MinInt64/MaxInt64 and their neighbours,
+// plus seeded random magnitudes of both signs.
+func arithAmounts(c *runCtx, nrand int) []int64 {
+	seen := map[int64]bool{}
 	var ns []int64
 	add := func(v int64) {
-		if v >= 0 {
+		if !seen[v] {
+			seen[v] = true
 			ns = append(ns, v)
 		}
 	}
-	for _, b := range []int64{0, 1, 2, 9, 10, 11, 99, 100, 1 << 31, 1 << 32, 1<<53 - 1, 1 << 53, 1<<53 + 1, 1<<62 + 12345, 1<<63 - 1} {
-		add(b)
+	both := func(v int64) {
+		add(v)
+		add(-v) // -MinInt64 == MinInt64: harmless
 	}
+	for _, b := range []int64{0, 1, 2, 9, 10, 11, 99, 100, 150, 1 << 31, 1 << 32, 1<<53 - 1, 1 << 53, 1<<53 + 1, 1<<62 + 12345, math.MaxInt64, math.MaxInt64 - 1} {
+		both(b)
+	}
+	add(math.MinInt64)
+	add(math.MinInt64 + 1)
 	p10 := int64(1)
 	for k := 0; k <= 18; k++ {
-		add(p10 - 1)
-		add(p10)
-		add(p10 + 1)
-		add((1<<63 - 1) / p10)
-		add((1<<63-1)/p10 + 1)
-		add((1<<63-1)/p10 - 1)
-		add((1<<53 - 1) / p10)
+		both(p10 - 1)
+		both(p10)
+		both(p10 + 1)
+		both(p10 + p10/2) // 1.5 * 10^k: a non-multiple of every larger factor, a multiple of the smaller ones
+		both(math.MaxInt64 / p10)
+		both(math.MaxInt64/p10 + 1)
+		both(math.MaxInt64/p10 - 1)
+		both((1<<53 - 1) / p10)
+		add(math.MinInt64/p10*p10 + 0) // the multiple of 10^k next to MinInt64 …
+		add(math.MinInt64/p10*p10 - 1) // … and the amounts between it and MinInt64 (wraps to MaxInt64 for k=0: same set)
+		add(math.MinInt64 + p10 - 1)   // MinInt64 + factor - 1
+		add(math.MinInt64 + p10)
 		if k < 18 {
 			p10 *= 10
 		}
 	}
-	for i := 0; i < c.n(300, 20000); i++ {
-		add(int64(c.rng.Uint64() >> uint(1+c.rng.IntN(63))))
+	for i := 0; i < nrand; i++ {
+		v := int64(c.rng.Uint64() >> uint(1+c.rng.IntN(63)))
+		if c.rng.IntN(2) == 0 {
+			v = -v
+		}
+		add(v)
 	}
+	return ns
+}
+
+func arithGen(c *runCtx, run func([]string)) {
+	var ops []string
+	ns := arithAmounts(c, c.n(300, 20000))
 	for p := 0; p <= 18; p++ {
 		for _, n := range ns {
 			ops = append(ops, fmt.Sprintf("arith precision dir=toBalance p=%d n=%d", p, n))
 			ops = append(ops, fmt.Sprintf("arith precision dir=toFixed8 p=%d n=%d", p, n))
 		}
 	}
+	// concurrent conversions through copies of one converter (innerring.New hands one converter to the balance and
+	// to the neofs processor, each converts from its own worker pool)
+	for i := 0; i < c.n(40, 400); i++ {
+		p := c.rng.IntN(19)
+		if i%2 == 0 {
+			p = []int{12, 0, 6, 18, 9, 8}[i/2%6]
+		}
+		k := 4 + c.rng.IntN(9)
+		var as []int64
+		for j := 0; j < k; j++ {
+			v := int64(c.rng.Uint64() >> uint(1+c.rng.IntN(63)))
+			switch c.rng.IntN(4) {
+			case 0:
+				v = -v
+			case 1:
+				v = ns[c.rng.IntN(len(ns))]
+			}
+			as = append(as, v)
+		}
+		ops = append(ops, fmt.Sprintf("arith cconv p=%d g=%d r=%d ns=%s", p, 2+c.rng.IntN(5), c.n(2000, 10000), arithJoin(as)))
+	}
 	run(ops)
 }
 
+// arithExact is the mathematical (big.Int) result of a conversion and whether it multiplies.
+func arithExact(dir string, p int, n int64) (*big.Int, bool, *big.Int) {
+	exp := p - 8
+	if exp < 0 {
+		exp = -exp
+	}
+	f := new(big.Int).Exp(big.NewInt(10), big.NewInt(int64(exp)), nil)
+	bn := big.NewInt(n)
+	decrease := dir == "toBalance" && p < 8 || dir == "toFixed8" && p > 8
+	if decrease {
+		// Euclidean division: the quotient is rounded towards minus infinity for the positive factor
+		return new(big.Int).Div(bn, f), false, f
+	}
+	return new(big.Int).Mul(bn, f), true, f
+}
+
+var (
+	arithMin64 = big.NewInt(math.MinInt64)
+	arithMax64 = big.NewInt(math.MaxInt64)
+)
+
+func arithFits(x *big.Int) bool { return x.Cmp(arithMin64) >= 0 && x.Cmp(arithMax64) <= 0 }
+
 func arithExec(c *runCtx, ops []string) {
 	c.independent = true
-	two63 := new(big.Int).Lsh(big.NewInt(1), 63)
 	for _, line := range ops {
 		o := parseOp(line)
 		c.count(o.name + ":" + o.kv["dir"])
-		if o.name != "precision" {
-			c.emit(line, "=> bad-op")
-			continue
-		}
-		p, n := o.int("p"), int64(o.u64("n"))
-		conv := precision.NewConverter(uint32(p))
-		exp := p - 8
-		if exp < 0 {
-			exp = -exp
-		}
-		f := new(big.Int).Exp(big.NewInt(10), big.NewInt(int64(exp)), nil)
-		bn := big.NewInt(n)
-		var got int64
-		var exact *big.Int
-		mul := false
-		switch o.kv["dir"] {
-		case "toBalance":
-			got = conv.ToBalancePrecision(n)
-			if p < 8 {
-				exact = new(big.Int).Div(bn, f)
-			} else {
-				exact, mul = new(big.Int).Mul(bn, f), true
-			}
-		case "toFixed8":
-			got = conv.ToFixed8(n)
-			if p > 8 {
-				exact = new(big.Int).Div(bn, f)
-			} else {
-				exact, mul = new(big.Int).Mul(bn, f), true
-			}
+		switch o.name {
+		case "precision":
+			arithPrecision(c, line, o)
+		case "cconv":
+			arithConcurrent(c, line, o)
 		default:
 			c.emit(line, "=> bad-op")
-			continue
-		}
-		c.emit(line, fmt.Sprintf("=> ok v=%d", got))
-		fits := exact.Cmp(two63) < 0
-		if n < 1<<53 {
-			c.oracleSig("no-silent-overflow-below-2^53", fmt.Sprintf("mul=%v fits=%v", mul, fits), big.NewInt(got).Cmp(exact) == 0,
-				fmt.Sprintf("overflow dir=%s p=%d n=%d multiplication=%v productFitsInt64=%v: got %d, exact %s", o.kv["dir"], p, n, mul, fits, got, exact))
-		}
-		if fits {
-			c.oracle("conversion-exact-when-it-fits", big.NewInt(got).Cmp(exact) == 0, fmt.Sprintf("dir=%s p=%d n=%d got %d exact %s", o.kv["dir"], p, n, got, exact))
-			if o.kv["dir"] == "toBalance" {
-				back := conv.ToFixed8(got)
-				c.oracle("roundtrip-never-more", back <= n, fmt.Sprintf("p=%d n=%d back=%d", p, n, back))
-				if p >= 8 {
-					c.oracle("roundtrip-exact-when-finer", back == n, fmt.Sprintf("p=%d n=%d back=%d", p, n, back))
-				}
-			}
-			if n > 1 && p != 8 {
-				c.nontrivial(line)
-			}
 		}
 	}
+}
+
+func arithPrecision(c *runCtx, line string, o opLine) {
+	dir := o.kv["dir"]
+	if dir != "toBalance" && dir != "toFixed8" {
+		c.emit(line, "=> bad-op")
+		return
+	}
+	p, n := o.int("p"), arithI64(o.kv["n"])
+	conv := precision.NewConverter(uint32(p))
+	var got int64
+	if dir == "toBalance" {
+		got = conv.ToBalancePrecision(n)
+	} else {
+		got = conv.ToFixed8(n)
+	}
+	exact, mul, f := arithExact(dir, p, n)
+	c.emit(line, fmt.Sprintf("=> ok v=%d", got))
+	fits := arithFits(exact)
+	switch {
+	case n < 0:
+		c.count("amount:negative")
+	case n == 0:
+		c.count("amount:zero")
+	default:
+		c.count("amount:positive")
+	}
+	if !mul && new(big.Int).Mod(big.NewInt(n), f).Sign() != 0 {
+		c.count(fmt.Sprintf("division:non-multiple:neg=%v", n < 0))
+	}
+	if n < 1<<53 && n > -(1<<53) { // the supported range, either sign
+		c.oracleSig("no-silent-overflow-below-2^53", fmt.Sprintf("mul=%v fits=%v neg=%v", mul, fits, n < 0), big.NewInt(got).Cmp(exact) == 0,
+			fmt.Sprintf("overflow dir=%s p=%d n=%d multiplication=%v productFitsInt64=%v: got %d, exact %s", dir, p, n, mul, fits, got, exact))
+	}
+	if !fits {
+		return
+	}
+	c.oracleSig("conversion-exact-when-it-fits", fmt.Sprintf("mul=%v neg=%v", mul, n < 0), big.NewInt(got).Cmp(exact) == 0,
+		fmt.Sprintf("dir=%s p=%d n=%d got %d exact %s", dir, p, n, got, exact))
+	if dir == "toBalance" {
+		// main-net precision -> balance precision -> back, every int64 amount whose first conversion does not wrap
+		back := conv.ToFixed8(got)
+		backExact, _, _ := arithExact("toFixed8", p, got)
+		c.oracleSig("roundtrip-never-more", fmt.Sprintf("neg=%v backfits=%v", n < 0, arithFits(backExact)), back <= n,
+			fmt.Sprintf("p=%d n=%d balance=%d back=%d backProductFitsInt64=%v", p, n, got, back, arithFits(backExact)))
+		if p >= 8 {
+			c.oracle("roundtrip-exact-when-finer", back == n, fmt.Sprintf("p=%d n=%d back=%d", p, n, back))
+		}
+	}
+	if (n > 1 || n < -1) && p != 8 {
+		c.nontrivial(line)
+	}
+}
+
+// arithConcurrent: ONE converter is made, every goroutine gets a COPY of it (Fixed8Converter is passed by value, as
+// innerring.New does) and converts all amounts r times, goroutines released together by a spin barrier; every result
+// must be the one a conversion gives when nothing else runs (a conversion is a pure function of its argument).
+func arithConcurrent(c *runCtx, line string, o opLine) {
+	p, g, r := o.int("p"), o.int("g"), o.int("r")
+	ns := arithI64s(o.kv["ns"])
+	if g < 1 || g > 64 || r < 1 || len(ns) == 0 {
+		c.emit(line, "=> bad-op")
+		return
+	}
+	shared := precision.NewConverter(uint32(p))
+	wantB := make([]int64, len(ns))
+	wantF := make([]int64, len(ns))
+	for i, n := range ns { // sequential reference: a fresh converter per call, nothing overlaps
+		wantB[i] = precision.NewConverter(uint32(p)).ToBalancePrecision(n)
+		wantF[i] = precision.NewConverter(uint32(p)).ToFixed8(n)
+	}
+	var bad, panics atomic.Int64
+	var firstBad atomic.Pointer[string]
+	var arrived atomic.Int32
+	deadline := time.Now().Add(2 * time.Second)
+	var wg sync.WaitGroup
+	for gi := 0; gi < g; gi++ {
+		conv := shared // the copy a processor holds
+		wg.Add(1)
+		go func(gi int, conv precision.Fixed8Converter) {
+			defer wg.Done()
+			defer func() {
+				if e := recover(); e != nil {
+					panics.Add(1)
+					bad.Add(1)
+					s := fmt.Sprintf("goroutine %d: panic %v", gi, e)
+					firstBad.CompareAndSwap(nil, &s)
+				}
+			}()
+			arrived.Add(1)
+			for int(arrived.Load()) < g && time.Now().Before(deadline) { // spin: start all together
+			}
+			for round := 0; round < r; round++ {
+				for k := range ns {
+					i := (k + gi*3 + round) % len(ns)
+					var got, want int64
+					toBal := (gi+k)%2 == 0
+					if toBal {
+						got, want = conv.ToBalancePrecision(ns[i]), wantB[i]
+					} else {
+						got, want = conv.ToFixed8(ns[i]), wantF[i]
+					}
+					if got != want {
+						bad.Add(1)
+						if firstBad.Load() == nil {
+							s := fmt.Sprintf("goroutine %d round %d: toBalance=%v p=%d n=%d gave %d, alone it gives %d", gi, round, toBal, p, ns[i], got, want)
+							firstBad.CompareAndSwap(nil, &s)
+						}
+					}
+				}
+			}
+		}(gi, conv)
+	}
+	wg.Wait()
+	// after the storm the shared converter still converts as a fresh one
+	for i, n := range ns {
+		if shared.ToBalancePrecision(n) != wantB[i] || shared.ToFixed8(n) != wantF[i] {
+			bad.Add(1)
+			s := fmt.Sprintf("after the concurrent run: p=%d n=%d converts to %d/%d, a fresh converter gives %d/%d", p, n,
+				shared.ToBalancePrecision(n), shared.ToFixed8(n), wantB[i], wantF[i])
+			firstBad.CompareAndSwap(nil, &s)
+		}
+	}
+	c.emit(line, fmt.Sprintf("=> ok b=%s f=%s bad=%d", arithJoin(wantB), arithJoin(wantF), bad.Load()))
+	detail := ""
+	if s := firstBad.Load(); s != nil {
+		detail = *s
+	}
+	c.oracle("concurrent-conversions-equal-sequential", bad.Load() == 0,
+		fmt.Sprintf("%d of %d conversions through copies of one converter (%d goroutines) differ from the sequential result (%d panics); first: %s",
+			bad.Load(), g*r*len(ns), g, panics.Load(), detail))
+	c.count(fmt.Sprintf("cconv:goroutines=%d", g))
+	c.nontrivial(line)
 }
